@@ -253,6 +253,16 @@ fn check_list(rep: &mut Report, l: &Value, m: &Model, route: &'static str, rng: 
 
     // positional indexing
     let mut idxs: Vec<usize> = vec![0, n - 1, n, n + 1, usize::MAX, usize::MAX - 1, n / 2];
+    // indices that alias a valid one when truncated to 8, 16, 31, 32 or 63 bits
+    for k in [8u32, 16, 31, 32, 33, 48, 63] {
+        if (k as usize) < usize::BITS as usize {
+            let b = 1usize << k;
+            for j in [0, 1, n / 2, n - 1] {
+                idxs.push(b.wrapping_add(j));
+            }
+            idxs.push(b - 1);
+        }
+    }
     for _ in 0..4 {
         idxs.push(rng.below(n + 3));
     }
@@ -438,7 +448,8 @@ enum Entry {
 }
 
 fn case_alist(rep: &mut Report, rng: &mut Rng, cfg: &GenCfg, tb: &Tables) {
-    let names = ["a", "b", "key", "k2", "", "nil", "λ"];
+    // plain names, and names that look like the printed form of another key
+    let names = ["a", "b", "key", "k2", "", "nil", "λ", "#:a", ":a", "a:", "\"a\"", "#:key", "|a|", "'a"];
     let n = rng.range(0, 10);
     let mut entries = Vec::new();
     for _ in 0..n {
